@@ -131,6 +131,18 @@ func (e *Explorer) explore(prefix []int, usedK, usedD int, depth int) {
 	}
 	x := e.runOne(prefix, nil)
 	countIt := depth > 0 || e.Shard == 0
+	if tr := os.Getenv("VERIF_TRACE"); tr != "" && depth == 0 && e.Shard == 0 && strings.Contains(e.Case, tr) && x.Out != nil {
+		// debugging aid: dump the canonical execution of the case
+		fmt.Printf("TRACE %s\n", e.Case)
+		for _, l := range renderTrace(x) {
+			fmt.Println("  " + l)
+		}
+		for i, st := range x.Out.Steps {
+			if st.N > 1 {
+				fmt.Printf("  step %d n=%d %s cats=%v\n", i, st.N, st.Sig, st.Cats)
+			}
+		}
+	}
 	if x.Internal != "" {
 		e.Stats.Internal = append(e.Stats.Internal, fmt.Sprintf("%s %v: %s", e.Case, prefix, x.Internal))
 		return
